@@ -40,7 +40,8 @@ def draw_config(rng, mode="bounded", allow_restart=False, faults=True):
         # channel names are just JSON values used as dictionary keys: numbers are as good as strings
         c["channels"] = [7, 8, 9][: len(c["channels"])]
     c["p_noid"] = rng.choice([0.0, 0.2, 0.5])
-    c["prios"] = rng.choice([[0], [0, 1], [0, 1, 2], [2, 1, 0, 0]])
+    # (a priority is a number: fractions are as good as integers)
+    c["prios"] = rng.choice([[0], [0, 1], [0, 1, 2], [2, 1, 0, 0], [0, 1], [1.5, 1.2, 1.9, 1], [0.75, 0.5, 0.25]])
     # always explicit: the defaults (120 s, 3600 s) are implementation constants, not properties
     c["timeouts"] = rng.choice([[120], [120, 5, 60], [5], [120, 1200]])
     c["ttls"] = rng.choice([[3600], [3600, 20, 100]])
@@ -576,6 +577,8 @@ class QsRun:
         c, rng = self.config, self.rng
         name = rng.choice(self._sendable(c.workers))
         r = rng.random()
+        if r < 0.04:
+            return ["send", name, "qpull", rng.choice([{}, {"channels": None}])]  # "all channels", spelled by omission
         if r < 0.2:
             chans = []
         elif r < 0.7:
